@@ -192,6 +192,9 @@ func realtime(a *hk.Args) error {
 		dies := rng.Intn(3) != 0
 		// every third round: one write of the live holder's heartbeat fails (a transient I/O error: no file descriptor left, a
 		// hiccup of the shared filesystem); the holder lives on and so must its sign of life
+		if id%3 == 0 && hold < 14 {
+			hold = 14 + rng.Intn(10) // rounds in which the holder sweeps over its own lock: long enough for a stopped heartbeat to show
+		}
 		hiccup := id%3 == 2
 		if hiccup && hold < 14 {
 			hold = 14 + rng.Intn(10)
@@ -315,6 +318,25 @@ func oneRealtimeRound(id int, scratch string, holdPeriods, load, observers int, 
 	rng := rand.New(rand.NewSource(seed))
 	var owg sync.WaitGroup
 	obsStop := make(chan struct{})
+	if id%3 == 0 {
+		// housekeeping by the holder itself: it runs IsStale / ReleaseIfStale over its own, live, lock object now and then
+		owg.Add(1)
+		go func() {
+			defer owg.Done()
+			for {
+				select {
+				case <-obsStop:
+					return
+				case <-time.After(period + period/2):
+				}
+				if holderGone.Load() {
+					return
+				}
+				_ = holder.IsStale()
+				_ = holder.ReleaseIfStale(context.Background())
+			}
+		}()
+	}
 	for o := 0; o < observers; o++ {
 		owg.Add(1)
 		seedO := rng.Int63()
